@@ -607,31 +607,28 @@ static inline _Bool reset_inv(const Node *c, const Node *W)      /* nodes the cu
 #define CF_F (*fromNode)
 #define CF_D (*node)
 #define CONTRACT_CL_cloneFrom__loop0 \
-  __CPROVER_requires(__CPROVER_is_fresh(self, sizeof(CL)) && __CPROVER_is_fresh(fromHead, sizeof(Node *)) && __CPROVER_is_fresh(fromNode, sizeof(Node *)) && \
-                     __CPROVER_is_fresh(node, sizeof(Node *)) && __CPROVER_is_fresh(counter, sizeof(unsigned int))) \
+  __CPROVER_requires(__CPROVER_is_fresh(self, sizeof(CL)) && FRESH_LOCALS_CL_cloneFrom__loop0) \
   __CPROVER_requires(CF_F == NULL || (FRESH_NODE(CF_F) && NULL_OR_FRESH(CF_F->next))) \
   __CPROVER_requires(NULL_OR_FRESH(CF_D)) \
-  __CPROVER_requires(CLOCK_OK && *counter != 0 && (CF_F != NULL ==> (LIVE(CF_F) && g_fwd(CF_F) && g_next_rank == CF_F->rank && CF_F->rank > 0))) \
-  __CPROVER_requires(CF_D != NULL ? (CF_D->next == NULL && LIVE(CF_D) && CF_D->counter == *counter && self->head != NULL && (CF_F != NULL ==> CF_D->rank < CF_F->rank)) : self->head == NULL) \
+  __CPROVER_requires(CLOCK_OK && self->currentCounter != 0 && *counter == self->currentCounter && (CF_F != NULL ==> (LIVE(CF_F) && g_fwd(CF_F) && g_next_rank == CF_F->rank && CF_F->rank > 0))) \
+  __CPROVER_requires(CF_D != NULL ? (CF_D->next == NULL && LIVE(CF_D) && CF_D->counter == self->currentCounter && self->head != NULL && (CF_F != NULL ==> CF_D->rank < CF_F->rank)) : self->head == NULL) \
   __CPROVER_requires(g_u0 == (unsigned long long)(CF_D != NULL)) \
-  __CPROVER_assigns(*node, *fromNode, g_clock) \
+  __CPROVER_assigns(LOCALS_CL_cloneFrom__loop0, g_clock) \
   __CPROVER_assigns(CF_F != NULL && CF_D == NULL: self->head) \
   __CPROVER_assigns(CF_F != NULL && CF_D != NULL: CF_D->next) \
   __CPROVER_ensures(__CPROVER_return_value == 0 || __CPROVER_return_value == 3) \
   __CPROVER_ensures(__CPROVER_return_value == 3 ==> (CF_F == NULL && CF_D == __CPROVER_old(*node))) \
-  __CPROVER_ensures(__CPROVER_return_value == 0 ==> (FRESH_NODE(CF_D) && CF_D->next == NULL && LIVE(CF_D) && CF_D->counter == *counter)) \
+  __CPROVER_ensures(__CPROVER_return_value == 0 ==> (FRESH_NODE(CF_D) && CF_D->next == NULL && LIVE(CF_D) && CF_D->counter == self->currentCounter && self->currentCounter == __CPROVER_old(self->currentCounter)))   /* the one generation of the copy = its list counter */ \
   __CPROVER_ensures(__CPROVER_return_value == 0 ==> (CF_D->callback.id == __CPROVER_old(*fromNode)->callback.id && CF_D->rank == __CPROVER_old(*fromNode)->rank)) \
   __CPROVER_ensures(__CPROVER_return_value == 0 ==> (CF_D->previous == __CPROVER_old(*node) && CF_F == __CPROVER_old((*fromNode)->next))) \
   __CPROVER_ensures(__CPROVER_return_value == 0 ==> (g_u0 ? (CF_D->previous->next == CF_D && CF_D->previous->rank < CF_D->rank && self->head == __CPROVER_old(self->head)) : self->head == CF_D)) \
   __CPROVER_ensures(__CPROVER_return_value == 0 ==> (self->head != NULL && (CF_F != NULL ==> CF_D->rank < CF_F->rank)))
 #define CONTRACT_CL_cloneFrom__loop0_pre \
-  __CPROVER_requires(__CPROVER_is_fresh(self, sizeof(CL)) && __CPROVER_is_fresh(fromHead, sizeof(Node *)) && __CPROVER_is_fresh(fromNode, sizeof(Node *)) && \
-                     __CPROVER_is_fresh(node, sizeof(Node *)) && __CPROVER_is_fresh(counter, sizeof(unsigned int))) \
+  __CPROVER_requires(__CPROVER_is_fresh(self, sizeof(CL)) && FRESH_LOCALS_CL_cloneFrom__loop0) \
   __CPROVER_requires(UNLOCKED(self) && NOWRAP(self) && self->head == NULL) \
-  __CPROVER_assigns(*fromNode, *node, *counter, self->currentCounter) \
-  __CPROVER_ensures(__CPROVER_return_value == 0 && *fromNode == *fromHead && *node == NULL && *counter == self->currentCounter && *counter != 0 && self->head == NULL)
+  __CPROVER_assigns(LOCALS_CL_cloneFrom__loop0, self->currentCounter) \
+  __CPROVER_ensures(__CPROVER_return_value == 0 && *fromNode == __CPROVER_old(*fromHead) && *node == NULL && self->currentCounter == __CPROVER_old(self->currentCounter) + 1 && self->currentCounter != 0 && self->head == NULL && *counter == self->currentCounter)
 #define CONTRACT_CL_cloneFrom__loop0_epi \
-  __CPROVER_requires(__CPROVER_is_fresh(self, sizeof(CL)) && __CPROVER_is_fresh(fromHead, sizeof(Node *)) && __CPROVER_is_fresh(fromNode, sizeof(Node *)) && \
-                     __CPROVER_is_fresh(node, sizeof(Node *)) && __CPROVER_is_fresh(counter, sizeof(unsigned int))) \
+  __CPROVER_requires(__CPROVER_is_fresh(self, sizeof(CL)) && FRESH_LOCALS_CL_cloneFrom__loop0) \
   __CPROVER_assigns(self->tail) \
   __CPROVER_ensures(__CPROVER_return_value == 0 && self->tail == *node)
